@@ -312,4 +312,32 @@ VARIANTS = [
                 "        except:\n            LOG.exception(\"Failed in session message handler\")\n        try:\n"
                 "            rgn.message_handler.handle(msg)\n        except:\n            LOG.exception(\"Failed in region message handler\")\n\n"
                 "    def handle_proxied_packet(self, packet: UDPPacket):\n"}]},
+    # ------------------------------------------------------------------ round 8
+    {"name": "R3 socket error callback closes the association", "file": SP, "expect": "C06.R3",
+     "old": "    def _parse_socks_datagram(self, data):\n",
+     "new": "    def error_received(self, exc):\n        logging.warning(\"socket error %r\", exc)\n        self.transport.close()\n\n"
+            "    def _parse_socks_datagram(self, data):\n"},
+    {"name": "P R3 socket error callback that only logs", "file": SP, "expect": "silent",
+     "old": "    def _parse_socks_datagram(self, data):\n",
+     "new": "    def error_received(self, exc):\n        logging.warning(\"socket error %r\", exc)\n\n"
+            "    def connection_lost(self, exc):\n        logging.info(\"association closed\")\n\n"
+            "    def _parse_socks_datagram(self, data):\n"},
+    {"name": "P R2 region lookup through a finder that takes a predicate", "expect": "silent", "edits": [
+        {"file": ST, "old": "        for region in self.regions:\n            if region.circuit_addr == circuit_addr and region.circuit:\n"
+                            "                return region\n        return None\n",
+         "new": "        return self._first(lambda r: r.circuit and r.circuit_addr == circuit_addr)\n\n"
+                "    def _first(self, accept):\n        for candidate in self.regions:\n            if accept(candidate):\n"
+                "                return candidate\n        return None\n"}]},
+    {"name": "R2 finder predicate without the address test", "expect": "C06.R2", "edits": [
+        {"file": ST, "old": "        for region in self.regions:\n            if region.circuit_addr == circuit_addr and region.circuit:\n"
+                            "                return region\n        return None\n",
+         "new": "        return self._first(lambda r: r.circuit)\n\n"
+                "    def _first(self, accept):\n        for candidate in self.regions:\n            if accept(candidate):\n"
+                "                return candidate\n        return None\n"}]},
+    {"name": "P R5 circuit creation moved into a helper that reports success", "expect": "silent", "edits": [
+        {"file": SE, "old": "            if region.circuit_addr == circuit_addr:\n                if not region.circuit or not region.circuit.is_alive:\n",
+         "new": "            if region.circuit_addr == circuit_addr:\n                if self._ensure(region, near_addr, circuit_addr, transport):\n"
+                "                    return True\n        return False\n\n"
+                "    def _ensure(self, region, near_addr, circuit_addr, transport):\n        if True:\n"
+                "                if not region.circuit or not region.circuit.is_alive:\n"}]},
 ]
